@@ -9,6 +9,7 @@ import (
 	"os"
 	"sort"
 	"strings"
+	"sync/atomic"
 	"testing"
 	"time"
 
@@ -21,6 +22,7 @@ import (
 	"github.com/milvus-io/milvus/pkg/util/funcutil"
 
 	"github.com/zilliztech/milvus-cdc/core/api"
+	"github.com/zilliztech/milvus-cdc/core/model"
 	"github.com/zilliztech/milvus-cdc/core/reader"
 
 	"verifharness/stats"
@@ -31,6 +33,7 @@ type genOpts struct {
 	allowLatePart  bool
 	allowAbsent    bool
 	dropCollection bool
+	repeatNotify   bool // TestC01_Repeat: collections are also notified twice (concurrently at start, or again later)
 }
 
 type genInfo struct {
@@ -44,11 +47,14 @@ type genInfo struct {
 	posKinds   map[string]bool
 	interleave bool // a registration action after the first feed
 	unregistered int
+	opts         genOpts
+	repeats      int // repeated notifications issued
+	repeatConc   int // of which concurrent with the first one
 }
 
 // genWorld draws catalog, placements and per-shard scripts.
 func genWorld(t *rapid.T, w *world, o genOpts) *genInfo {
-	gi := &genInfo{posKinds: map[string]bool{}}
+	gi := &genInfo{posKinds: map[string]bool{}, opts: o}
 	n := rapid.IntRange(1, 3).Draw(t, "pchannels")
 	gi.n = n
 	gi.aligned = !o.allowSkew || rapid.IntRange(0, 9).Draw(t, "skewed") < 6
@@ -190,8 +196,45 @@ func drive(t *rapid.T, w *world, gi *genInfo) {
 			if fedAny {
 				gi.interleave = true
 			}
+			// a repeated notification about the same collection (the catalog listing and the watch both report it) must have
+			// no further effect: here the second one runs concurrently with the first
+			var concErr chan error
+			if gi.opts.repeatNotify && rapid.IntRange(0, 3).Draw(t, "concurrentRepeat") == 0 {
+				concErr = make(chan error, 1)
+				// line the two callers up inside their downstream lookup (after the early already-replicating check, before
+				// the collection is recorded): each waits there until the other has arrived too (or 100 ms: only a schedule aid)
+				var arrived atomic.Int32
+				both := make(chan struct{})
+				w.tgt.SetBeforeCollectionInfo(func(db, name string) {
+					if name != c.name {
+						return
+					}
+					if arrived.Add(1) == 2 {
+						close(both)
+					}
+					select {
+					case <-both:
+					case <-time.After(100 * time.Millisecond):
+					}
+				})
+				defer w.tgt.SetBeforeCollectionInfo(nil)
+				go func() {
+					concErr <- w.mgr.StartReadCollection(w.taskCtx(), &model.DatabaseInfo{Name: c.db}, c.info, c.seek, nil)
+				}()
+				gi.repeats++
+				gi.repeatConc++
+				w.hist = append(w.hist, "start-twice-concurrently("+c.name+")")
+			}
 			if err := w.start(c); err != nil {
+				if concErr != nil {
+					t.Fatalf("a repeated notification of collection %s had an effect: StartReadCollection failed: %v\n%s", c.name, err, w.dump(nil))
+				}
 				t.Fatalf("VERIF-TROUBLE StartReadCollection(%s): %v", c.name, err)
+			}
+			if concErr != nil {
+				if err := <-concErr; err != nil {
+					t.Fatalf("a repeated notification of collection %s had an effect: the concurrent StartReadCollection failed: %v\n%s", c.name, err, w.dump(nil))
+				}
 			}
 			anyReg := false
 			for _, st := range c.streams {
@@ -213,6 +256,21 @@ func drive(t *rapid.T, w *world, gi *genInfo) {
 			}
 			w.hist = append(w.hist, "start("+c.name+")")
 			continue
+		}
+		if gi.opts.repeatNotify && rapid.IntRange(0, 7).Draw(t, "repeatLater") == 0 {
+			// the same, later: a started collection is notified again between two packs
+			var started []*collDef
+			for _, c := range w.colls {
+				if c.started {
+					started = append(started, c)
+				}
+			}
+			c := started[rapid.IntRange(0, len(started)-1).Draw(t, "repeatColl")]
+			if err := w.mgr.StartReadCollection(w.taskCtx(), &model.DatabaseInfo{Name: c.db}, c.info, c.seek, nil); err != nil {
+				t.Fatalf("a repeated notification of collection %s had an effect: StartReadCollection failed: %v\n%s", c.name, err, w.dump(nil))
+			}
+			gi.repeats++
+			w.hist = append(w.hist, "start-again("+c.name+")")
 		}
 		st := feedable[rapid.IntRange(0, len(feedable)-1).Draw(t, "feed")]
 		if w.feedNext(st) {
@@ -237,6 +295,14 @@ type oracleStats struct {
 func checkC01C02(t failer, w *world, prop string) *oracleStats {
 	os := &oracleStats{}
 	out, events := w.snapshot()
+	// no stream is ever stopped in these runs: a source shard that was subscribed more than once would be read twice
+	for _, c := range w.colls {
+		for _, st := range c.streams {
+			if n := w.disp.RegisterCount(st.srcV); n > 1 {
+				t.Fatalf("source shard %s has been subscribed %d times (a repeated notification started a second reader)\n%s", st.srcV, n, w.dump(out))
+			}
+		}
+	}
 	byID := map[string]*packDef{}
 	byTag := map[int64]*msgDef{}
 	for _, c := range w.colls {
@@ -548,7 +614,9 @@ func (w *world) dump(out []*outPack) string {
 	return b.String()
 }
 
-func propC01C02(t *rapid.T, prop string) {
+func propC01C02(t *rapid.T, prop string) { propC01C02Opts(t, prop, false) }
+
+func propC01C02Opts(t *rapid.T, prop string, repeatNotify bool) {
 	sc := stats.New(prop)
 	w := newWorld(worldOpts{ttIntervalMs: rapid.SampledFrom([]int{1, 10000000}).Draw(t, "ttInterval"), bufSize: rapid.SampledFrom([]int{1, 4, 16}).Draw(t, "bufSize")})
 	defer w.close()
@@ -562,7 +630,7 @@ func propC01C02(t *rapid.T, prop string) {
 		})
 		defer reader.SetVerifYield(nil)
 	}
-	gi := genWorld(t, w, genOpts{allowSkew: true, allowLatePart: true, allowAbsent: true})
+	gi := genWorld(t, w, genOpts{allowSkew: true, allowLatePart: true, allowAbsent: true, repeatNotify: repeatNotify})
 	drive(t, w, gi)
 	if os.Getenv("VERIF_TRACE") != "" {
 		fmt.Printf("TRACE catalog %v\n", w.describe())
@@ -582,6 +650,8 @@ func propC01C02(t *rapid.T, prop string) {
 	sc.ClassIf(gi.latePart, "late-partition-id")
 	sc.ClassIf(gi.absentColl, "collection-created-by-event")
 	sc.ClassIf(gi.interleave, "registration-after-first-feed")
+	sc.ClassIf(gi.repeats > 0, "repeated-notification")
+	sc.ClassIf(gi.repeatConc > 0, "repeated-notification-concurrent")
 	sc.ClassIf(gi.unregistered > 0, "stream-waiting-for-free-channel(not fed)")
 	sc.ClassIf(res.errorEvents > 0, "replicate-error-event")
 	sc.ClassIf(res.tickOnly > 0, "tick-only-pack-emitted")
@@ -594,7 +664,7 @@ func propC01C02(t *rapid.T, prop string) {
 	} else {
 		sc.NonTrivial(!gi.aligned || gi.latePart || gi.shared)
 	}
-	sc.Fingerprint(w.describe())
+	sc.Fingerprint(map[string]any{"catalog": w.describe(), "actions": w.hist})
 	sc.Sample(map[string]any{"catalog": w.describe(), "actions": w.hist, "emitted_data_packs": res.dataPacks, "emitted_tick_only_packs": res.tickOnly})
 	sc.Done()
 }
@@ -622,4 +692,10 @@ func (w *world) describe() []string {
 }
 
 func TestC01(t *testing.T) { rapid.Check(t, func(t *rapid.T) { propC01C02(t, "C01") }) }
+
+// TestC01_Repeat: the same property with repeated notifications of collections in the action sequence (kept as a separate test
+// so that the draw sequence - and the saved regression inputs - of TestC01 stay unchanged).
+func TestC01_Repeat(t *testing.T) {
+	rapid.Check(t, func(t *rapid.T) { propC01C02Opts(t, "C01", true) })
+}
 func TestC02(t *testing.T) { rapid.Check(t, func(t *rapid.T) { propC01C02(t, "C02") }) }
